@@ -272,12 +272,122 @@ def task_isolation(P, R):
             R.ok('C18.c', f, None, f'task function ({how}) writes only its own locals and arguments', construct=f'task {f.qualname}')
 
 
+THREAD_COUNT_SOURCES = {'get_num_threads', 'cpu_count', 'NUMBA_NUM_THREADS', 'NUMBA_DEFAULT_NUM_THREADS', 'get_thread_count', 'active_count'}
+
+
+def _evenness(f, e, tainted, depth=6):
+    """'even' | 'odd' | None (unknown) of an integer expression; len() of a coordinate buffer is even by S2."""
+    if depth <= 0:
+        return None
+    if isinstance(e, ast.Constant) and isinstance(e.value, int):
+        return 'even' if e.value % 2 == 0 else 'odd'
+    if isinstance(e, ast.Name):
+        defs = astq.assignments(f, e.id)
+        if len(defs) == 1 and defs[0][0] == 'expr':
+            return _evenness(f, defs[0][1], tainted, depth - 1)
+        if defs and all(d[0] == 'expr' for d in defs):
+            vs = {_evenness(f, d[1], tainted, depth - 1) for d in defs}
+            return vs.pop() if len(vs) == 1 else None
+        augs = [d for d in defs if d[0] == 'aug']
+        if augs and len(defs) == len(augs) + 1:
+            # x = e0; x -= x % 2 / x += x % 2 / x &= ~1
+            for d in augs:
+                n = d[1]
+                if isinstance(n.op, (ast.Sub, ast.Add)) and norm(n.value) in (f'{e.id} % 2', f'{e.id} & 1'):
+                    return 'even'
+                if isinstance(n.op, ast.BitAnd) and norm(n.value) in ('~1', '-2'):
+                    return 'even'
+        return None
+    if isinstance(e, ast.BinOp):
+        l, r = _evenness(f, e.left, tainted, depth - 1), _evenness(f, e.right, tainted, depth - 1)
+        if isinstance(e.op, ast.Mult):
+            if 'even' in (l, r):
+                return 'even'
+            return 'odd' if l == r == 'odd' else None
+        if isinstance(e.op, (ast.Add, ast.Sub)):
+            if isinstance(e.op, ast.Sub) and isinstance(e.right, ast.BinOp) and isinstance(e.right.op, ast.Mod) and norm(e.right.right) == '2' and norm(e.right.left) == norm(e.left):
+                return 'even'            # x - x % 2
+            if isinstance(e.op, ast.Add) and isinstance(e.right, ast.BinOp) and isinstance(e.right.op, ast.Mod) and norm(e.right.right) == '2' and norm(e.right.left) == norm(e.left):
+                return 'even'            # x + x % 2
+            if l is None or r is None:
+                return None
+            return 'even' if l == r else 'odd'
+        if isinstance(e.op, ast.LShift) and isinstance(e.right, ast.Constant) and isinstance(e.right.value, int) and e.right.value >= 1:
+            return 'even'
+        if isinstance(e.op, ast.BitAnd) and norm(e.right) in ('~1', '-2'):
+            return 'even'
+        return None
+    if isinstance(e, ast.Call) and norm(e.func) in ('min', 'max') and e.args:
+        vs = {_evenness(f, a, tainted, depth - 1) for a in e.args}
+        return 'even' if vs == {'even'} else None
+    if isinstance(e, ast.Call) and norm(e.func) == 'len' and e.args and isinstance(e.args[0], ast.Name) and e.args[0].id in f.params:
+        return 'even'                    # length of an interleaved coordinate buffer (S2)
+    return None
+
+
+def thread_count_rules(P, R):
+    """C18.f: a value derived from the number of threads may decide how work is split, never what the result is.  The
+    structural part decided: when such a value bounds a slice of an interleaved coordinate buffer that is handed to a
+    coordinate kernel, the lower bound is provably even for every thread count (otherwise a block starts on a y value for
+    some counts and x/y are swapped)."""
+    interleaved_kernels = {g.key for g in P.all_funcs() if g.mod.name.startswith('spatialpandas.geometry._algorithms.') and g.params and g.params[0] in ('values', 'flat_values')}
+    nsrc = 0
+    for f in P.all_funcs():
+        if isinstance(f.node, ast.Lambda):
+            continue
+        srcs = [n for n in walk_own(f.node) if (isinstance(n, ast.Call) and norm(n.func).split('.')[-1] in THREAD_COUNT_SOURCES)
+                or (isinstance(n, ast.Attribute) and n.attr in THREAD_COUNT_SOURCES and not isinstance(getattr(n, 'ctx', None), ast.Store))]
+        if not srcs:
+            continue
+        nsrc += 1
+        tainted = set()
+        changed = True
+        while changed:
+            changed = False
+            for n in walk_own(f.node):
+                tg, val = None, None
+                if isinstance(n, ast.Assign) and len(n.targets) == 1:
+                    tg, val = n.targets[0], n.value
+                elif isinstance(n, ast.AugAssign):
+                    tg, val = n.target, n.value
+                elif isinstance(n, ast.For):
+                    tg, val = n.target, n.iter
+                if tg is None:
+                    continue
+                dep = any((x in srcs) or (isinstance(x, ast.Name) and x.id in tainted) for x in ast.walk(val))
+                if dep:
+                    for x in ast.walk(tg):
+                        if isinstance(x, ast.Name) and x.id not in tainted:
+                            tainted.add(x.id)
+                            changed = True
+        for c in astq.own_calls(f):
+            r = P.resolve_call(f, c)
+            if not (r and r[0] == 'func' and r[1].key in interleaved_kernels and c.args):
+                continue
+            a0 = c.args[0]
+            if isinstance(a0, ast.Name):
+                t_ = astq.trace(f, a0)
+                a0 = t_ if isinstance(t_, ast.AST) else a0
+            if not (isinstance(a0, ast.Subscript) and isinstance(a0.slice, ast.Slice)):
+                continue
+            lo = a0.slice.lower
+            if lo is None or not (astq.names_in(lo) & tainted):
+                continue
+            ev = _evenness(f, lo, tainted)
+            R.check(ev == 'even', 'C18.f', f, c, 'a block boundary derived from the thread count is even for every count: blocks of the interleaved buffer start on an x value',
+                    f'`{norm(a0)}` is handed to {r[1].name}: its lower bound `{norm(lo)}` derives from the number of threads and is not even for every count, '
+                    'so for some thread counts a block starts on a y value and x/y are swapped: the result depends on the number of numba threads',
+                    construct=f'thread-count block start {norm(lo)}')
+    R.count('functions_reading_thread_count', nsrc)
+
+
 def run(P, R, tier):
     R.assume('S4: numba prange iterations run concurrently; parallel=True without prange parallelises array expressions only')
     R.assume('S7: dask.delayed(f)(...) / map_partitions(f) run f once per task, possibly concurrently')
     prange_rules(P, R)
     parallel_kernels(P, R)
     task_isolation(P, R)
+    thread_count_rules(P, R)
     # write-target injectivity of the packing tasks (shared with C10.c)
     from rules import C10
     sub = type(R)(R.prop, R.tier)
